@@ -261,5 +261,5 @@ func runC02(cw *caseWriter, tier string, seed uint64) {
 		runScenarios(cw, 1, seed*100000, 2000, 12)
 		runScenarios(cw, 7, seed*100000, 600, 12)
 	}
-	// runC102(cw, tier, seed, 0) // enabled once the model tracks nextIndex (see ClusterCommit.v)
+	runC102(cw, tier, seed, 0)
 }
